@@ -2,7 +2,7 @@
 // Oracle: reference evaluator (value + propagated error bound, undecidable samples discarded) over the generator's own
 // expression trees and unit-scaling semantics; generated C is compiled (gcc -std=c99, ASan+UBSan) and run, generated
 // Python is executed; every entry of states/rates/variables is compared at three (voi, states) points.
-#include "sem.h"
+#include "semjudge.h"
 #include "vh.h"
 
 #include <algorithm>
@@ -209,14 +209,7 @@ static SemModel layer1Model(const std::vector<ExprP> &exprs)
     return m;
 }
 
-struct Judged
-{
-    int compared = 0;
-    int undecidable = 0;
-};
-
-// Run the model through analyse -> generate -> run for both profiles and compare with the reference.
-// `labels[qi]` = structural label of quantity qi used in violation keys ("" = use the kind).
+// parse + validate, then the shared judge (harness/lib/semjudge)
 static void judge(Ctx &ctx, const SemModel &m, const std::vector<std::string> &labels, const std::vector<SemPoint> &points, const std::string &caseTag, Judged &jd)
 {
     IrModel ir = semToIr(m);
@@ -234,235 +227,7 @@ static void judge(Ctx &ctx, const SemModel &m, const std::vector<std::string> &l
         viol("C04", "valid-by-construction-rejected:sem:" + ruleName(validator->issue(0)->referenceRule()), issueSummary(*validator), text);
         return;
     }
-    stage("analyse " + caseTag);
-    auto analyser = Analyser::create();
-    analyser->analyseModel(model);
-    monitorLogger(*analyser, "Analyser::analyseModel", text);
-    auto am = analyser->model();
-    bool expectOde = m.voi >= 0;
-    bool expectNla = !m.nla.empty();
-    std::string wantType = expectOde ? (expectNla ? "dae" : "ode") : (expectNla ? "nla" : "algebraic");
-    std::string gotType = am != nullptr ? AnalyserModel::typeAsString(am->type()) : "null";
-    seen("model_type", gotType);
-    if (am == nullptr || !am->isValid()) {
-        // classification is C05's property; without a valid analysis there is nothing to run
-        std::string rule = analyser->errorCount() != 0 ? ruleName(analyser->error(0)->referenceRule()) : "none";
-        viol("C05", "valid-model-not-analysable:" + gotType + ":" + rule + ":" + caseTag.substr(0, caseTag.find(' ')), "expected " + wantType + "\n" + issueSummary(*analyser), text);
-        stat("models_not_analysable");
-        return;
-    }
-    if (gotType != wantType) {
-        viol("C05", "model-type:" + gotType + "-expected-" + wantType, "", text);
-    }
-    // map analyser variables to quantities by the primary variable's (component, name)
-    std::map<std::string, int> instToQ;
-    for (size_t qi = 0; qi < m.q.size(); ++qi) {
-        for (const auto &in : m.q[qi].inst) {
-            instToQ["comp" + std::to_string(in.comp) + "." + in.name] = static_cast<int>(qi);
-        }
-    }
-    auto quantityOf = [&](const AnalyserVariablePtr &av, double &scaleOfPrimary) -> int {
-        auto v = av->variable();
-        auto c = std::dynamic_pointer_cast<Component>(v->parent());
-        std::string key = (c != nullptr ? c->name() : "?") + "." + v->name();
-        auto it = instToQ.find(key);
-        if (it == instToQ.end()) {
-            return -1;
-        }
-        const auto &q = m.q[static_cast<size_t>(it->second)];
-        scaleOfPrimary = q.inst[0].scale;
-        for (const auto &in : q.inst) {
-            if ("comp" + std::to_string(in.comp) == (c != nullptr ? c->name() : "") && in.name == v->name()) {
-                scaleOfPrimary = in.scale;
-            }
-        }
-        return it->second;
-    };
-    stage("generate " + caseTag);
-    auto gen = Generator::create();
-    gen->setModel(am);
-    std::string cIface = gen->interfaceCode();
-    std::string cImpl = gen->implementationCode();
-    gen->setProfile(GeneratorProfile::create(GeneratorProfile::Profile::PYTHON));
-    std::string pyImpl = gen->implementationCode();
-
-    RunSpec spec;
-    spec.hasVoi = expectOde;
-    spec.stateCount = am->stateCount();
-    spec.variableCount = am->variableCount();
-    // the order of states in the generated arrays: map state index -> quantity
-    std::vector<int> stateQ(am->stateCount(), -1);
-    std::vector<double> stateScale(am->stateCount(), 1.0);
-    for (size_t i = 0; i < am->stateCount(); ++i) {
-        double sc = 1.0;
-        stateQ[i] = quantityOf(am->state(i), sc);
-        stateScale[i] = sc;
-    }
-    double voiScale = 1.0;
-    if (expectOde && am->voi() != nullptr) {
-        (void)quantityOf(am->voi(), voiScale);
-    }
-    auto sq = stateQuantities(m);
-    for (size_t p = 1; p < points.size(); ++p) {
-        // points are given in HOME units; the arrays hold values in the PRIMARY variable's units
-        double homeVoiScale = m.voi >= 0 ? m.q[static_cast<size_t>(m.voi)].inst[0].scale : 1.0;
-        spec.pointVoi.push_back(points[p].voi * homeVoiScale / voiScale);
-        std::vector<double> sv(am->stateCount(), 0.0);
-        for (size_t i = 0; i < am->stateCount(); ++i) {
-            for (size_t k = 0; k < sq.size(); ++k) {
-                if (sq[k] == stateQ[i]) {
-                    sv[i] = points[p].stateValues[k] * m.q[static_cast<size_t>(sq[k])].inst[0].scale / stateScale[i];
-                }
-            }
-        }
-        spec.pointStates.push_back(sv);
-    }
-    std::string wd = scratchDir() + "/c03_" + std::to_string(ctx.index);
-    stage("run-c " + caseTag);
-    CodeRun rc = runGeneratedC(cIface, cImpl, spec, wd);
-    stage("run-py " + caseTag);
-    CodeRun rp = runGeneratedPython(pyImpl, spec, wd);
-    std::string replay = text + "\n/* ---- generated C ---- */\n" + cImpl;
-    if (!rc.ok) {
-        viol("C03", "c-run-failed:" + caseTag.substr(0, caseTag.find(' ')), rc.error, replay);
-    }
-    if (!rp.ok) {
-        viol("C03", "python-run-failed:" + caseTag.substr(0, caseTag.find(' ')), rp.error, text + "\n# ---- generated Python ----\n" + pyImpl);
-    }
-    stat("models_run");
-    if (rc.ok && rc.nlaSolves > 0) {
-        stat("nla_solves", rc.nlaSolves);
-        if (rc.worstResidual > 1e-9) {
-            viol("C03", "nla:residual-not-zero:C", "worst |f| after solve = " + std::to_string(rc.worstResidual), replay);
-        }
-    }
-    std::set<std::string> reported;
-    for (int profile = 0; profile < 2; ++profile) {
-        const CodeRun &run = profile == 0 ? rc : rp;
-        const char *pn = profile == 0 ? "C" : "Python";
-        if (!run.ok) {
-            continue;
-        }
-        if (run.variables.size() != points.size()) {
-            viol("C03", std::string("runner-output-incomplete:") + pn, "", replay);
-            continue;
-        }
-        for (size_t p = 0; p < points.size(); ++p) {
-            SemEval ev = evaluateSem(m, points[p]);
-            struct Miss
-            {
-                std::string what;
-                int qi;
-                double got;
-                Val ref;
-            };
-            std::vector<Miss> misses;
-            std::set<int> wrongValue; // quantities whose VALUE is wrong at this point
-            auto check = [&](const char *what, int qi, const Val &refHome, double got, double primaryScale, double extraScale) {
-                // refHome is in home units (extraScale converts rates); value in primary units = home * sHome/sPrimary
-                if (qi < 0) {
-                    return;
-                }
-                const auto &q = m.q[static_cast<size_t>(qi)];
-                if (!refHome.ok) {
-                    ++jd.undecidable;
-                    return;
-                }
-                Val ref = refHome;
-                double f = q.inst[0].scale / primaryScale * extraScale;
-                ref.v *= f;
-                ref.e = ref.e * std::fabs(f) + 2.0 * ulpOf(ref.v);
-                ++jd.compared;
-                if (!consistent(ref, got)) {
-                    misses.push_back({what, qi, got, ref});
-                    if (std::string(what) != "rate") {
-                        wrongValue.insert(qi);
-                    }
-                }
-            };
-            for (size_t i = 0; i < am->variableCount() && i < run.variables[p].size(); ++i) {
-                double sc = 1.0;
-                int qi = quantityOf(am->variable(i), sc);
-                if (qi >= 0) {
-                    check("variable", qi, ev.value[static_cast<size_t>(qi)], run.variables[p][i], sc, 1.0);
-                }
-            }
-            if (expectOde && p < run.rates.size()) {
-                for (size_t i = 0; i < am->stateCount() && i < run.rates[p].size(); ++i) {
-                    int qi = stateQ[i];
-                    if (qi < 0) {
-                        continue;
-                    }
-                    // rate in primary units per primary voi unit
-                    double homeVoiScale = m.q[static_cast<size_t>(m.voi)].inst[0].scale;
-                    check("rate", qi, ev.rate[static_cast<size_t>(qi)], run.rates[p][i], stateScale[i], voiScale / homeVoiScale);
-                    if (p == 0) {
-                        check("initial-state", qi, ev.value[static_cast<size_t>(qi)], run.states[p][i], stateScale[i], 1.0);
-                    }
-                }
-            }
-            // report only root causes: a wrong quantity all of whose inputs are right
-            std::function<void(const ExprP &, std::set<int> &)> deps = [&](const ExprP &e, std::set<int> &out) {
-                if (e == nullptr) {
-                    return;
-                }
-                if (e->op == Op::CI && e->quantity >= 0) {
-                    out.insert(e->quantity);
-                }
-                for (const auto &k : e->kids) {
-                    deps(k, out);
-                }
-            };
-            for (const auto &ms : misses) {
-                const auto &q = m.q[static_cast<size_t>(ms.qi)];
-                std::set<int> d;
-                if (ms.what != "initial-state") {
-                    deps(q.def, d);
-                }
-                if (ms.what == "initial-state" && q.initByQuantity >= 0) {
-                    d.insert(q.initByQuantity);
-                }
-                bool cascade = false;
-                for (int x : d) {
-                    // a rate may read its own state: a wrong state value then explains the wrong rate
-                    cascade = cascade || ((x != ms.qi || ms.what == "rate") && wrongValue.count(x) != 0U);
-                }
-                if (cascade) {
-                    stat("cascaded_mismatches_not_reported");
-                    continue;
-                }
-                std::string label = labels.size() > static_cast<size_t>(ms.qi) && !labels[static_cast<size_t>(ms.qi)].empty() ? labels[static_cast<size_t>(ms.qi)] : std::string(qkindName(q.kind));
-                std::string key = std::string("value:") + pn + ":" + ms.what + ":" + label;
-                if (reported.insert(key).second) {
-                    char buf[400];
-                    snprintf(buf, sizeof buf, "%s of %s at point %zu: generated %s gives %.17g, reference %.17g (+-%.3g); definition: %s", ms.what.c_str(), q.inst[0].name.c_str(), p, pn, ms.got, ms.ref.v, ms.ref.e,
-                             q.def != nullptr ? exprToString(q.def).c_str() : "(none)");
-                    viol("C03", key, buf, replay);
-                }
-            }
-        }
-    }
-    // the two profiles agree with each other (bitwise on decidable entries is too strict: compare within 1e-9)
-    if (rc.ok && rp.ok && rc.variables.size() == rp.variables.size()) {
-        for (size_t p = 0; p < rc.variables.size(); ++p) {
-            for (size_t i = 0; i < rc.variables[p].size() && i < rp.variables[p].size(); ++i) {
-                double a = rc.variables[p][i];
-                double b = rp.variables[p][i];
-                if (std::isfinite(a) && std::isfinite(b) && std::fabs(a - b) > 1e-9 * std::max(1.0, std::max(std::fabs(a), std::fabs(b)))) {
-                    double sc = 1.0;
-                    int qi = quantityOf(am->variable(i), sc);
-                    SemEval ev = evaluateSem(m, points[p]);
-                    if (qi >= 0 && ev.value[static_cast<size_t>(qi)].ok) {
-                        std::string label = labels.size() > static_cast<size_t>(qi) && !labels[static_cast<size_t>(qi)].empty() ? labels[static_cast<size_t>(qi)] : std::string(qkindName(m.q[static_cast<size_t>(qi)].kind));
-                        std::string key = "profiles-disagree:" + label;
-                        if (reported.insert(key).second) {
-                            viol("C03", key, "variables[" + std::to_string(i) + "] C=" + std::to_string(a) + " Python=" + std::to_string(b), replay);
-                        }
-                    }
-                }
-            }
-        }
-    }
+    judgeModel(ctx, "C03", m, model, text, labels, points, caseTag, jd);
 }
 
 static void runShapes(Ctx &ctx, int64_t modelIndex, bool randomTrees)
